@@ -64,13 +64,16 @@ type SKnobs struct {
 	FileCursor     bool `json:"file_cursor"`
 	ChunkSize      int  `json:"chunk_size"`
 	MaxParallel    int  `json:"max_parallel"`
+	// compaction-method of the store configuration: 0 auto (streaming only for very large chunks), 1 streaming,
+	// 2 non-streaming; absent in older replay files = auto
+	CompactMethod int `json:"compact_method,omitempty"`
 }
 
 func genKnobs(r *core.Rand) SKnobs {
 	k := SKnobs{}
 	k.Partitions = core.Pick(r, []int{1, 1, 1, 1, 1, 1, 2, 2, 3, 4, 8, 16})
 	k.RowsPerSegment = core.Pick(r, []int{8, 8, 16, 16, 1000})
-	_ = core.Pick(r, []int{2, 3, 4, 65535})
+	k.CompactMethod = core.Pick(r, []int{0, 0, 1, 2}) // (takes the draw of the former segment-limit knob)
 	k.SegmentLimit = 65535 // not configurable in the product (no caller of the setter): left at its default
 	k.MinGroupFiles = core.Pick(r, []int{2, 2, 3, 4, 8})
 	k.MutableLimit = core.Pick(r, []int{30 << 20, 30 << 20, 2048, 512})
@@ -99,6 +102,7 @@ func applyKnobs(k SKnobs) {
 		}
 	}
 	executor.EnableFileCursor(k.FileCursor)
+	immutable.SetMergeFlag4TsStore(int32(k.CompactMethod))
 	// the size that triggers an automatic memtable flush; assigned directly because
 	// the setter clamps it to >= 30 MiB (a knob value, not a production setting)
 	lim := k.MutableLimit
